@@ -345,6 +345,139 @@ fn exec(cfg: &Cfg, render: bool) -> RunOutput {
     out
 }
 
+// ------------------------------------------------------------------ late operations under tokio's cooperative budget
+
+const W_LATE_OPS: u64 = 128;
+const W_BUDGET_YIELD: u64 = 256;
+
+/// `n` streams are open on the endpoint; the connection then ends for a non-local reason while the
+/// application drops all its streams at once and immediately issues new operations. Everything runs
+/// inside a tokio runtime WITHOUT `unconstrained`, with one runtime yield per step, so every poll of the
+/// subject gets tokio's real per-poll cooperative budget (128 channel operations) -- a task that has
+/// more than that to receive yields in the middle of its teardown, as it does in production.
+async fn late_ops_async(n: usize, how: u8, render: bool) -> RunOutput {
+    use crate::raw::{RMsg, Raw};
+    let cfg = SideCfg { opts: opts(2, 1).bind_buffer_size(1).stream_buffer_size(4), rng: vec![] };
+    let mut w = World::one(UNBOUNDED_CAP, 0, &cfg);
+    let mut raw = Raw::new(1, w.sim.link.clone());
+    for i in 0..n {
+        let tag = (i % 200) as u8;
+        w.spawn_opener(0, tag, vec![tag, (i / 200) as u8], 1, EndPlan::Seq(vec![Op::Park]));
+    }
+    let mut viol: Vec<(String, String)> = Vec::new();
+    let mut fps = Vec::new();
+    let mut wit = 0u64;
+    let mut phase = 0;
+    let mut log: Vec<String> = Vec::new();
+    let mut task_polls_after_fault = 0u32;
+    loop {
+        if w.sim.steps > 40_000 {
+            push_viol(&mut viol, "livelock", "step horizon".into());
+            break;
+        }
+        let en = w.sim.enabled();
+        if en.is_empty() {
+            if phase == 0 {
+                phase = 1;
+                // all streams are established and parked; now the connection ends ...
+                match how {
+                    0 => w.sim.link.cut(1),
+                    1 => raw.send_msg(Message::Close),
+                    _ => raw.send_bytes(&[0x7f, 0, 0, 0, 1]),
+                }
+                // ... the application drops every stream it holds, at once ...
+                let idx: Vec<usize> = w.sim.tasks.iter().enumerate().filter(|(_, t)| t.name.starts_with('s') && !t.done).map(|(i, _)| i).collect();
+                for i in idx {
+                    let name = w.sim.tasks[i].name.clone();
+                    w.sim.cancel_task(i);
+                    w.obs.borrow_mut().end(&name);
+                }
+                // ... and immediately issues new operations
+                w.spawn_opener(0, 250, vec![250], 9, EndPlan::Seq(vec![Op::Drop]));
+                w.spawn_bind_requester(0, 7, 1, b"late".to_vec(), 1);
+                w.spawn_dgram_receiver(0, "dgrecv.late", 1, false);
+                w.spawn_dgram_sender(0, "dgsend.late", vec![dgram(1, b"x", 1, b"y")], 0, false);
+                w.spawn_acceptor(0, 1, BTreeMap::new());
+                wit |= W_LATE_OPS;
+                continue;
+            }
+            break;
+        }
+        // establishing the streams is deterministic set-up; the explorer owns everything from the end of the connection on
+        let c = if phase == 0 { 0 } else { crate::explore::choose_n(en.len(), Cost::Sched) };
+        let step = en[c].clone();
+        if render {
+            log.push(w.sim.describe(&step));
+        }
+        if phase == 1 && matches!(&step, Step::Poll(i) if Some(*i) == w.task_idx[0]) {
+            task_polls_after_fault += 1;
+        }
+        w.sim.apply(&step);
+        // the raw peer acknowledges every Connect
+        for m in raw.pump() {
+            if let RMsg::Frame(RFrame::Connect { id, .. }) = m {
+                if phase == 0 {
+                    raw.send(&RFrame::Acknowledge { id, n: 4 });
+                }
+            }
+        }
+        let mut h = Fnv::default();
+        h.u64(w.obs.borrow().events.len() as u64);
+        h.u64(w.sim.tasks.iter().filter(|t| t.done).count() as u64);
+        h.byte(phase);
+        h.byte(u8::from(w.task_done(0)));
+        if let Some(m) = w.mux[0].as_ref() {
+            h.u64(m.verif_flow_digest().len() as u64);
+        }
+        fps.push(h.0);
+        // a fresh cooperative budget for the next poll, like a real runtime gives every task poll
+        tokio::task::yield_now().await;
+    }
+    if task_polls_after_fault > 3 {
+        wit |= W_BUDGET_YIELD;
+    }
+    let obs = w.obs.borrow();
+    let pend = obs.pending();
+    if !pend.is_empty() {
+        push_viol(
+            &mut viol,
+            "late.hang",
+            format!("the connection ended ({}) with {n} streams being dropped at the same time; operations issued right then never completed: {pend:?} (connection task finished: {}, needed {task_polls_after_fault} polls after the end)", ["transport failure", "peer Close", "invalid frame"][usize::from(how.min(2))], w.task_done(0)),
+        );
+    }
+    if !w.task_done(0) {
+        push_viol(&mut viol, "hang.task", "the connection task never finished".into());
+    }
+    for e in &obs.events {
+        match e {
+            Ev::OpenErr { err, .. } | Ev::AcceptErr { err, .. } | Ev::DgramErr { err, .. } if err != "Closed" => push_viol(&mut viol, "mux.error-kind", format!("late operation failed with {err} instead of Closed")),
+            Ev::BindResult { res: Err(err), .. } if err != "Closed" => push_viol(&mut viol, "mux.error-kind", format!("late request_bind failed with {err}")),
+            Ev::BindResult { res: Ok(true), .. } => push_viol(&mut viol, "bind.spurious-true", "late bind request resolved true".into()),
+            Ev::OpenOk { tag: 250, .. } => push_viol(&mut viol, "late.open-succeeded", "a stream request issued after the connection ended succeeded".into()),
+            _ => {}
+        }
+    }
+    for t in &w.sim.tasks {
+        if let Some(p) = &t.panicked {
+            push_viol(&mut viol, "panic", format!("{} panicked: {p}", t.name));
+        }
+    }
+    let mut h = Fnv::default();
+    for e in obs.events.iter().rev().take(12) {
+        h.str(&format!("{e:?}"));
+    }
+    h.u64(u64::from(task_polls_after_fault));
+    drop(obs);
+    let out = RunOutput { steps: w.sim.steps, fingerprints: fps, outcome: h.0, violations: viol, witnesses: wit, horizon: false, rendering: render.then(|| log.iter().rev().take(60).rev().cloned().collect::<Vec<_>>().join(" ")) };
+    w.sim.teardown();
+    out
+}
+
+fn exec_late(n: usize, how: u8, render: bool) -> RunOutput {
+    let rt = tokio::runtime::Builder::new_current_thread().build().expect("runtime");
+    rt.block_on(late_ops_async(n, how, render))
+}
+
 pub fn run(args: &Args) -> Report {
     let mut rep = Report::new("C08", &args.tier, "psim", "fault_enumeration");
     let thorough = args.thorough();
@@ -361,7 +494,12 @@ pub fn run(args: &Args) -> Report {
         vec![Cfg { rwnd: (2, 1), cap: 1, variant: 1 }]
     };
     for cfg in cfgs {
-        cases.push(Case { label: format!("busy scenario rwnd={:?} cap={} variant={}", cfg.rwnd, cfg.cap, cfg.variant), exec: Box::new(move |r| exec(&cfg, r)) });
+        cases.push(Case { try_unbounded: false, max_k: u32::MAX, label: format!("busy scenario rwnd={:?} cap={} variant={}", cfg.rwnd, cfg.cap, cfg.variant), exec: Box::new(move |r| exec(&cfg, r)) });
+    }
+    for n in if thorough { vec![0usize, 3, 127, 129, 140, 300] } else { vec![3usize, 140] } {
+        for how in 0..3u8 {
+            cases.push(Case { try_unbounded: false, max_k: if n > 10 { 1 } else { u32::MAX }, label: format!("late operations: {n} streams dropped when the connection ends by {}", ["transport failure", "peer Close", "invalid frame"][usize::from(how)]), exec: Box::new(move |r| exec_late(n, how, r)) });
+        }
     }
     let plan = Plan {
         ks: if thorough { vec![0, 1, 2] } else { vec![0, 1] },
@@ -369,7 +507,7 @@ pub fn run(args: &Args) -> Report {
         fault: 1,
         total_wall: Duration::from_secs(if thorough { 1800 } else { 45 }),
         max_execs_per_case: 20_000_000,
-        required_witnesses: W_FAULT_TAKEN | W_FAULT_WITH_BLOCKED_WRITER | W_FAULT_WITH_PENDING_OPEN | W_FAULT_WITH_PENDING_BIND | W_DROP_FLUSHED_DATA | W_BROKEN_PIPE | W_CLOSED_SEEN,
+        required_witnesses: W_LATE_OPS | W_BUDGET_YIELD | W_FAULT_TAKEN | W_FAULT_WITH_BLOCKED_WRITER | W_FAULT_WITH_PENDING_OPEN | W_FAULT_WITH_PENDING_BIND | W_DROP_FLUSHED_DATA | W_BROKEN_PIPE | W_CLOSED_SEEN,
         witness_names: &[
             ("fault_injected", W_FAULT_TAKEN),
             ("fault_while_writer_blocked_on_credit", W_FAULT_WITH_BLOCKED_WRITER),
@@ -378,9 +516,11 @@ pub fn run(args: &Args) -> Report {
             ("drop_flushed_queued_data", W_DROP_FLUSHED_DATA),
             ("broken_pipe_observed", W_BROKEN_PIPE),
             ("closed_observed", W_CLOSED_SEEN),
+            ("late_operations_issued", W_LATE_OPS),
+            ("teardown_yielded_on_cooperative_budget", W_BUDGET_YIELD),
         ],
     };
-    rep.rule = "psim: busy two-endpoint scenario (stream with a writer blocked on credit and a blocked reader, a stream request in handshake, accept loops, pending get_datagram on both sides, a bind request that is never answered and one that is, datagrams, half-closes); at EVERY scheduling point (and at quiescence) of every schedule with <= k deviations each fault of {cut a->b, cut b->a, cut both, drop Multiplexor A, drop Multiplexor B} is injected once, then the system runs to quiescence: no application future and no task future may be left pending, reads only ever return delivered prefix then 0, failed writes are BrokenPipe, failed multiplexor calls are Closed (bind: false/Closed), and for a drop over a healthy transport every accepted write/Finish/datagram of that side is on the wire, in order, before exactly one final Close".into();
+    rep.rule = "psim: busy two-endpoint scenario (stream with a writer blocked on credit and a blocked reader, a stream request in handshake, accept loops, pending get_datagram on both sides, a bind request that is never answered and one that is, datagrams, half-closes); at EVERY scheduling point (and at quiescence) of every schedule with <= k deviations each fault of {cut a->b, cut b->a, cut both, drop Multiplexor A, drop Multiplexor B} is injected once, then the system runs to quiescence: no application future and no task future may be left pending, reads only ever return delivered prefix then 0, failed writes are BrokenPipe, failed multiplexor calls are Closed (bind: false/Closed), and for a drop over a healthy transport every accepted write/Finish/datagram of that side is on the wire, in order, before exactly one final Close. Second part (\"late operations\"): n streams open against a raw peer; the connection ends (transport failure / peer Close / invalid frame) while the application drops all n streams at once and immediately issues new_stream_channel, request_bind, send_datagram, get_datagram and accept; executed inside a tokio runtime with the real per-poll cooperative budget (a teardown with more than 128 pending notifications yields in the middle); every late operation must complete with Closed".into();
     rep.assumptions = vec![
         "a cut is a reported failure (sender's sink errors, receiver's source yields one error then ends); a silent one-directional loss without keepalive is indistinguishable from a slow peer and is C16's subject (keepalive)".into(),
         "dropping a Multiplexor first cancels the application futures that still borrow it (safe Rust cannot do otherwise); streams already handed out live on".into(),
